@@ -41,6 +41,10 @@ func checkC23(c *Ctx, r *Report) {
 					})
 				}
 				if ci, isC := in.(ssa.CallInstruction); isC {
+					// a helper of the state that forgets its argument on every path
+					if a, h, t := stateHelperEffects(ci, l, fAll, fHealthy, fTrend, "Remove"); (a || h || t) && guarded() {
+						rmAll, rmHealthy, rmTrend = rmAll || a, rmHealthy || h, rmTrend || t
+					}
 					cn := calleeName(ci.Common())
 					if cn == "(utils/stringset.Set).Remove" && l.derivesFromElem(ci.Common().Args[1]) && guarded() {
 						if mentionsField(ci.Common().Args[0], fAll) {
@@ -92,6 +96,29 @@ func checkC23(c *Ctx, r *Report) {
 				okA = true
 			}
 		}
+		if !okA {
+			// the same through a helper that adds its argument to both sets
+			for _, l := range rangeLoops(sync) {
+				instrsOf(sync, func(in ssa.Instruction) {
+					ci, isC := in.(ssa.CallInstruction)
+					if !isC || !l.contains(in.Block()) {
+						return
+					}
+					a, h, _ := stateHelperEffects(ci, l, fAll, fHealthy, fTrend, "Add")
+					if !a || !h {
+						return
+					}
+					if guardedBy(in, func(cond ssa.Value, val bool) int {
+						if cl, isCl := cond.(*ssa.Call); isCl && calleeName(cl.Common()) == "(utils/stringset.Set).Has" && mentionsField(cl.Call.Args[0], fAll) {
+							return tern(val, -1, 1)
+						}
+						return 0
+					}) {
+						okA = true
+					}
+				})
+			}
+		}
 		r.Check(okA, r1, sync, "arrival adds to all and healthy", nil, "new hosts start healthy", "a host seen for the first time is not added to both 'all' and 'healthy'")
 	}
 
@@ -129,6 +156,10 @@ func checkC23(c *Ctx, r *Report) {
 	r4 := r.Rule("R4", "E-GUARD", "outside sync, healthy.Add only where trend[addr] == Passes and healthy.Remove only where trend[addr] == -Fails", 2)
 	for _, fn := range c.FuncsIn(pkgHC) {
 		if c.isFixture(fn) || recvTypeName(fn) != tState || fn == sync {
+			continue
+		}
+		// private helpers that only sync calls are part of sync
+		if sync != nil && callerAllowed(c, fn, map[string]bool{funcName(sync): true}, 0) {
 			continue
 		}
 		for _, cs := range callsInNamed(fn, "(utils/stringset.Set).Add", "(utils/stringset.Set).Remove") {
